@@ -26,7 +26,13 @@ RULE = ("history spec (2-12 revisions, merges up to 3 parents, ghost parents, "
         "optionally stacked on a repository holding the ancestry of a prefix "
         "revision; a revision to transfer; route = Repository.fetch | Branch.pull "
         "| Branch.push | ControlDir.sprout into a shared repository, with source "
-        "and/or target opened through a smart TCP server in the 'smart' kind. "
+        "and/or target opened through a smart TCP server in the 'smart' kind; "
+        "appended merge shapes BranchBuilder records as given (a parent that is "
+        "an ancestor of another parent; a merge whose tree equals its second "
+        "parent's), optionally a source that is itself stacked, the target "
+        "kept write-locked across both transfers, 1/2/3/50 revisions per round "
+        "of the walk to common revisions; 'long-history' kind: fixed 125-205 "
+        "revision histories with merges at the 10/50/100/200 batch boundaries. "
         "Non-trivial: the target already holds a proper non-empty subset of the "
         "transferred ancestry and that ancestry contains a merge; or the two "
         "formats differ; or a smart-server route; or a stacked target. Distinct "
@@ -394,11 +400,16 @@ def _remote_stacked_source_failure(case, sfmt, tfmt, e):
             "bytes-like object" in str(e):
         return ("C03/rich-root-upgrade-from-remote-stacked-source-into-"
                 "stacked-target-typeerror")
-    if sfmt == tfmt == "2a" and (
-            (name == "BzrCheckError" and "missing referenced chk root" in str(e))
-            or (name == "ErrorFromSmartServer" and "NoSuchRevision" in str(e))):
-        return ("C03/remote-stacked-2a-source-into-stacked-2a-target-misses-"
-                "chk-pages")
+    if sfmt == tfmt == "2a":
+        msg = str(e)
+        if (name == "BzrCheckError" and (
+                "missing referenced chk root" in msg or
+                "missing text keys" in msg or "missing chk node" in msg)) or \
+                (name == "ErrorFromSmartServer" and "NoSuchRevision" in msg) or \
+                (name == "AssertionError" and
+                 "second push failed to complete a fetch" in msg):
+            return ("C03/remote-stacked-2a-source-into-stacked-2a-target-"
+                    "incomplete-stream")
     return None
 
 
@@ -484,6 +495,78 @@ def _run_transfers(case, env, d, tpath, spath, sfmt, tfmt, spec, g, want, pre,
     return ok("+".join(label_bits[:1] + nt))
 
 
+def _long_spec(n):
+    """Deterministic history of n mainline revisions (one file modified in
+    every revision, a new file every 7th) with side revisions branched 35
+    revisions back and merged right around the batch boundaries used by the
+    fetch code (50-revision walk rounds, 100-revision conversion batches with
+    a 100-entry tree cache, 10-revision rounds of the text index)."""
+    revs = []
+    main = []
+
+    def add(parents, ops):
+        i = len(revs)
+        revs.append({"id": "r%d" % i, "parents": parents, "ghosts": [],
+                     "ops": ops, "msg": "m%d" % i, "ts": bz.T0 + 10 * i,
+                     "tz": 0, "committer": hist.COMMITTERS[0], "props": {}})
+        return "r%d" % i
+
+    main.append(add([], [["add", "f1-id", tm.ROOT_ID, "a", "file", "0\n", False],
+                         ["add", "f2-id", tm.ROOT_ID, "b", "file", "side\n",
+                          False]]))
+    merge_at = {9, 10, 11, 49, 50, 51, 99, 100, 101, 102, 149, 199, 200, 201}
+    for k in range(1, n):
+        ops = [["modify", "f1-id", "%d\n" % k]]
+        if k % 7 == 0:
+            ops.append(["add", "g%d-id" % k, tm.ROOT_ID, "g%d" % k, "file",
+                        "g %d\n" % k, False])
+        parents = [main[-1]]
+        if k in merge_at and k > 36:
+            side = add([main[k - 36]], [["modify", "f2-id", "side %d\n" % k]])
+            parents.append(side)
+        elif k in merge_at:
+            side = add([main[0]], [["modify", "f2-id", "side %d\n" % k]])
+            parents.append(side)
+        main.append(add(parents, ops))
+    return {"revs": revs, "tags": {}}
+
+
+def long_cases(tier):
+    base = {"pre": ["r3"], "stacked": None, "unrelated": 1, "remote": None,
+            "hold": False, "src_stacked": None}
+    out = [
+        dict(base, sfmt="pack-0.92", tfmt="2a", route="fetch", n=205,
+             walk_batch=50),
+        dict(base, sfmt="1.9", tfmt="1.9-rich-root", route="pull", n=125,
+             walk_batch=50, pre=["r60"]),
+        dict(base, sfmt="2a", tfmt="2a", route="push", n=125, walk_batch=50,
+             pre=["r60", "r20"], hold=True),
+    ]
+    if tier == "thorough":
+        out += [
+            dict(base, sfmt="knit", tfmt="2a", route="fetch", n=230,
+                 walk_batch=50),
+            dict(base, sfmt="2a", tfmt="2a", route="fetch", n=205,
+                 walk_batch=50, stacked="r150", unrelated=0),
+            dict(base, sfmt="pack-0.92", tfmt="1.9", route="fetch", n=205,
+                 walk_batch=50, pre=["r101"]),
+        ]
+    return out
+
+
+def run_long(case, env):
+    case = dict(case)
+    spec = _long_spec(case.pop("n"))
+    case["spec"] = spec
+    case["x"] = spec["revs"][-1]["id"]
+    out = run(case, env)
+    if out.status == "ok":
+        out.label = "long:" + (out.label or case["route"])
+    elif out.status == "trivial":
+        return ok("long:" + case["route"])
+    return out
+
+
 def kinds(tier):
     return [
         Kind("local", run, strategy=fetch_case(tier, smart=False),
@@ -491,4 +574,5 @@ def kinds(tier):
         Kind("smart", run, strategy=fetch_case(tier, smart=True),
              examples={"quick": 200, "thorough": 6000},
              setup=cf.smart_setup, teardown=cf.smart_teardown),
+        Kind("long-history", run_long, enumerate=long_cases, hash_cases=False),
     ]
